@@ -45,4 +45,21 @@ def encLead0 (s : Spec) : Bytes := magicFile ++ enc s.hashType ++ enc (encBody s
 def header (H : HashFn) (s : Spec) : Option Bytes :=
   (H s.hashType (encLead0 s ++ encBody s)).map fun dg => encLead0 s ++ dg ++ encBody s
 
+
+/-! ### the whole file for the "none" compression backend (`zck_close`: finished chunks, header, body) -/
+
+/-- the index entry `index_finish_chunk` makes for a chunk with stored bytes `st` and content `pl` (no uncompressed-source flag):
+an empty chunk gets an all-zero checksum, any other the checksum of its stored bytes -/
+def entryFor (H : HashFn) (cht : Nat) (st pl : Bytes) : Option Chunk :=
+  if pl.length = 0 then (hsize cht).map fun ds => ⟨0, zeros ds, none, 0, 0, 0⟩
+  else (H cht st).map fun d => ⟨0, d, none, st.length, pl.length, 0⟩
+
+/-- what `zck_close` writes for the dictionary (possibly empty) and the finished data chunks when nothing is compressed -/
+def closeFileNone (H : HashFn) (ht cht : Nat) (dict : Bytes) (chunks : List Bytes) : Option Bytes := do
+  let all := dict :: chunks
+  let ents ← all.mapM fun p => entryFor H cht p p
+  let dd ← H ht all.flatten
+  let hdr ← header H ⟨ht, cht, 0, 0, dd, ents⟩
+  some (hdr ++ all.flatten)
+
 end Zck.Encode
